@@ -61,7 +61,7 @@ def gen_filter(rng, keys, known_ids):
     return rng.choice([5, "s", None, [1], True]), "notquery"
 
 
-def gen_session(rng, keys, relay, n_msgs, limit):
+def gen_session(rng, keys, relay, n_msgs, limit, holds=False):
     """a list of message dicts; events are created lazily by the runner (they need the relay's signer)"""
     msgs = []
     n_conns = rng.randint(2, 4)
@@ -78,7 +78,13 @@ def gen_session(rng, keys, relay, n_msgs, limit):
             continue
         c = rng.choice(sorted(live))
         r = rng.random()
-        if r < 0.40:
+        if holds and r < 0.12:
+            # a REQ whose stored query is kept running (suspended at its start) while other messages are processed
+            msgs.append({"t": "req", "c": c, "sub": rng.choice(SUB_NAMES[:3]), "nf": rng.choice([1, 1, 2]), "hold": True,
+                         "force_valid": rng.random() < 0.6})
+        elif holds and r < 0.20:
+            msgs.append({"t": "release", "c": c})
+        elif r < 0.40:
             nf = rng.choice([0, 1, 1, 1, 2, 3])
             msgs.append({"t": "req", "c": c, "sub": rng.choice(SUB_NAMES[:4] if rng.random() < 0.7 else SUB_NAMES), "nf": nf})
         elif r < 0.52:
@@ -146,6 +152,52 @@ class Runner:
         self.sent_msgs = []        # the concrete client messages (for the replay file)
         self.clock = 0
         self.addr_mod = 2
+        self.gates = {}            # (conn no, sub name) -> asyncio.Event: held query tasks
+        self.held = {}             # (conn no, sub name) -> (model REQ message, validated filters)
+        self._orig_run_query = None
+
+    # -- holding query tasks at their start (a wrapper around run_query, applied from outside) ---------------
+    def install_holds(self):
+        import asyncio
+
+        cls = self.relay.storage.subscription_class
+        self._orig_run_query = orig = cls.run_query
+        runner = self
+
+        async def run_query(sub):
+            for (c, name), gate in list(runner.gates.items()):
+                if name == sub.sub_id and runner.conns[c].queue_is(sub.queue) and not gate.is_set():
+                    from lib import proto
+
+                    proto.HELD["n"] += 1
+                    try:
+                        await gate.wait()
+                    finally:
+                        proto.HELD["n"] -= 1
+                    break
+            return await orig(sub)
+
+        cls.run_query = run_query
+
+    def uninstall_holds(self):
+        if self._orig_run_query is not None:
+            self.relay.storage.subscription_class.run_query = self._orig_run_query
+            self._orig_run_query = None
+
+    def release(self, key):
+        """let the held query of (conn, name) run; returns the model message"""
+        mm_req, valid = self.held.pop(key)
+        if self.open.get(key) is valid:
+            ans = [e for e in self.events if any(spec.matches(q, e, False) for q in valid)]
+            mm_req["answer"] = [self.evn(e["id"]) for e in ans]
+        gate = self.gates.pop(key, None)
+        if gate is not None:
+            gate.set()
+        self.relay.settle()
+
+    def release_all(self):
+        for key in list(self.held):
+            self.step({"t": "release", "c": key[0], "key": key})
 
     def _validate(self, f):
         try:
@@ -185,10 +237,25 @@ class Runner:
             self.conns[c].close()
             for k in [k for k in self.open if k[0] == c]:
                 del self.open[k]
+            for k in [k for k in self.gates if k[0] == c]:
+                self.gates.pop(k).set()         # the (cancelled or orphaned) task must not hang for ever
+                self.held.pop(k, None)
+        elif m["t"] == "release":
+            key = m.get("key")
+            if key is None:
+                mine = sorted(k for k in self.held if k[0] == c) or sorted(self.held)
+                key = self.rng.choice(mine) if mine else None
+            if key is None or key not in self.held:
+                return
+            mm = {"t": "release", "c": key[0], "sub": self.names(key[1])}
+            c = key[0]
+            before = {k: len(v.out) for k, v in self.conns.items()}
+            self.release(key)
         elif m["t"] == "close":
             concrete = ["CLOSE", m["sub"]]
             self.conns[c].send(concrete)
             self.open.pop((c, sub_key(m["sub"])), None)
+            self.gates.pop((c, sub_key(m["sub"])), None)
             mm["sub"] = self.names(sub_key(m["sub"]))
         elif m["t"] == "req":
             known = [e["id"] for e in self.events]
@@ -218,6 +285,14 @@ class Runner:
                 ans = [e for e in self.events if any(spec.matches(q, e, False) for q in valid)]
                 mm.update(usable=True, allowed=True, answer=[self.evn(e["id"]) for e in ans])
                 self.open[(c, sk)] = valid
+            self.gates.pop((c, sk), None)
+            self.held.pop((c, sk), None)
+            if m.get("hold") and mm.get("usable") and mm.get("allowed"):
+                import asyncio
+
+                mm["hold"] = True
+                self.gates[(c, sk)] = asyncio.Event()
+                self.held[(c, sk)] = (mm, valid)
             self.conns[c].send(concrete)
         elif m["t"] == "event":
             ev, what = self._new_event(m["what"])
